@@ -68,7 +68,7 @@ def names(seed):
         'id': ('id', 'key', 'n')[k],
         'x': ('x', 'y', 'z')[k],
         'rest': ('rest', 'tail', 'r')[k],
-        'sfx': ('x', 'item', 'v2')[k],
+        'sfx': ('X', 'itemList', 'V2')[k],    # capitals: responder names are looked up verbatim
         'file': ('f.txt', 'g.txt', 'h.bin')[k],
         'only0': ('only0.txt', 'o.txt', 'p.bin')[k],
     }
@@ -428,7 +428,11 @@ def compare(exp, obs, method):
     if exp['allow'] is None:
         if obs['allow'] is not None and exp['cls'] not in ('sink', 'route-responder'):
             return ('spurious-allow', 'Allow %r on a %s response' % (obs['allow'], exp['cls']))
-    elif (obs['allow'] or []) != exp['allow']:
+    elif obs['allow'] is None:
+        # "answers ... with an Allow header listing exactly the implemented methods": for a resource that implements
+        # none the list is empty, the header is there all the same (RFC 9110 15.5.6 / 10.2.1: an empty Allow is meaningful)
+        return ('missing-allow', 'no Allow header at all, expected one listing exactly %r' % (exp['allow'],))
+    elif obs['allow'] != exp['allow']:
         return ('wrong-allow', 'Allow %r, expected exactly %r' % (obs['allow'], exp['allow']))
     if exp['body'] is not None and obs['body'] != exp['body']:
         return ('wrong-file', 'body %r, expected %r' % (obs['body'], exp['body']))
